@@ -44,6 +44,11 @@ def install(model, case, reuse_streams=False):
                 m.bus.add_listener(types[ti % len(types)], m.listeners[li % len(m.listeners)])
 
     def action(m, a):
+        if a[0] == "rotate":
+            # unsubscribe a listener and subscribe it again at once: same number of listeners, new order
+            action(m, ["unsub", a[1], a[2]])
+            action(m, ["sub", a[1], a[2]])
+            return
         if a[0] in ("unsub", "sub"):
             types = bus_types()
             if not m.listeners:
